@@ -697,6 +697,9 @@ func genRequest(t *rapid.T) C20Case {
 	ctr := rapid.OneOf(
 		rapid.SampledFrom([]string{"c0", "c", "c0-x", "c1", "app", "sleep", "bash"}),
 		rapid.StringMatching(`[a-z][a-z0-9]{0,3}`),
+		// names that hardly ever repeat: one plugin process gets to see thousands of them
+		rapid.StringMatching(`[a-z][a-z0-9]{5,9}`),
+		rapid.StringMatching(`[a-z][a-z0-9]{2,5}-[a-z0-9]{4,6}`),
 		rapid.StringMatching(`[a-z][a-z0-9]{0,2}-[a-z0-9]{1,2}`),
 		genBoundaryName(),
 		genBoundaryName(),
